@@ -618,7 +618,7 @@ func runNoParamWrite(rr *RuleRun) {
 
 func init() {
 	register(&Rule{
-		ID: "C04.rebuild-keeps-marks", Prop: "C04", Also: []string{"C08"}, Floor: 4, Controls: 1,
+		ID: "C04.rebuild-keeps-marks", Prop: "C04", Also: []string{"C08"}, Floor: 1, Controls: 1,
 		Doc: "in package convert, a value that is replaced by a fresh null or unknown built from its own type (v = cty.NullVal(v.Type()…)) keeps its marks: the replacement is wrapped in WithSameMarks(v) / WithMarks, or v is established unmarked — a type carries no marks, so rebuilding from it alone drops them",
 		Run: runRebuildKeepsMarks,
 	})
@@ -630,14 +630,42 @@ func runRebuildKeepsMarks(rr *RuleRun) {
 	eachFuncBody(c, []string{pkg}, func(_ string, fd *ast.FuncDecl, body *ast.BlockStmt) {
 		info := c.Info(pkg)
 		var facts *WorldResult
+		retOf := map[*ast.AssignStmt]*ast.ReturnStmt{}
+		retVar := map[*ast.AssignStmt]types.Object{}
 		inspectNoLit(body, func(n ast.Node) bool {
 			as, ok := n.(*ast.AssignStmt)
+			if ret, isRet := n.(*ast.ReturnStmt); isRet && len(ret.Results) == 1 && fd.Body == body && fd.Type.Results != nil && len(fd.Type.Results.List) == 1 {
+				// a helper `func(v cty.Value) cty.Value` whose result stands in for v: treat `return E` as `v = E`
+				var vp types.Object
+				nv := 0
+				for _, f := range fd.Type.Params.List {
+					for _, nm := range f.Names {
+						if o := info.Defs[nm]; o != nil && isCtyValue(o.Type()) {
+							vp = o
+							nv++
+						}
+					}
+				}
+				if nv == 1 && isCtyValue(info.TypeOf(ret.Results[0])) {
+					as = &ast.AssignStmt{Lhs: []ast.Expr{&ast.Ident{Name: vp.Name(), NamePos: ret.Pos()}}, TokPos: ret.Pos(), Tok: token.ASSIGN, Rhs: ret.Results}
+					retOf[as] = ret
+					retVar[as] = vp
+					ok = true
+				}
+			}
 			if !ok || len(as.Lhs) != 1 || len(as.Rhs) != 1 {
 				return true
 			}
 			v := objOf(info, as.Lhs[0])
+			if rv, isSynth := retVar[as]; isSynth {
+				v = rv
+			}
 			if v == nil || !isCtyValue(v.Type()) {
 				return true
+			}
+			var at ast.Node = as
+			if r, isSynth := retOf[as]; isSynth {
+				at = r
 			}
 			// RHS contains NullVal/UnknownVal(... v.Type() ...)
 			rebuilt := false
@@ -681,7 +709,7 @@ func runRebuildKeepsMarks(rr *RuleRun) {
 			if facts == nil {
 				facts = c.CFG(body, info).WorldsFocusedDims(valueFacts(info, body), []Fact{{"unmarked", objKey(v)}}, nil, []string{objKey(v)}, []string{"M", "DM"})
 			}
-			if h, reach := facts.Established(as, Fact{"unmarked", objKey(v)}); h || !reach {
+			if h, reach := facts.Established(at, Fact{"unmarked", objKey(v)}); h || !reach {
 				rr.OK(key, as.Pos(), v.Name()+" is established unmarked here")
 				return true
 			}
